@@ -1672,4 +1672,57 @@ Section Sound.
       destruct l as [|e l]; [discriminate|]. cbn [rep_len].
       rewrite (map_id_ext (norm_elem sch (norm sch) (TScalar KString))); [assumption|]. intros x _. reflexivity.
   Qed.
+
+  (* ---- values in the range carry no unknown fields ---- *)
+  Lemma wt_scalar_strip k v : wt_scalar k v = true -> strip_unknown v = v.
+  Proof. destruct k, v; cbn; try discriminate; reflexivity. Qed.
+
+  Lemma elem_strip (rec : rec_t) pp f fa e :
+    (forall pp ic tm x, rec pp ic tm x = true -> strip_unknown x = x) ->
+    elem_deep R rec pp f fa e = true -> strip_unknown e = e.
+  Proof.
+    intros Hr. unfold elem_deep. destruct (f_ty f) as [k|tm].
+    - cbn [p_scalar range_preds]. intros H. eapply wt_scalar_strip. eapply rg_scalar_wt; eauto.
+    - destruct e; try reflexivity; apply Hr.
+  Qed.
+
+  Lemma slot_strip (rec : rec_t) r p f fa s :
+    (forall pp ic tm x, rec pp ic tm x = true -> strip_unknown x = x) ->
+    slot_deep R rec r p f fa s = true -> strip_unknown s = s.
+  Proof.
+    intros Hr. unfold slot_deep. cbn [p_slot range_preds]. unfold rg_slot. intros H. apply andb_true_iff in H. destruct H as [Hl Hd].
+    destruct (f_shape f) eqn:Es.
+    - eapply elem_strip; eauto.
+    - destruct s; try (destruct (f_ty f); splitb; discriminate); try reflexivity.
+      cbn [strip_unknown]. f_equal. apply map_id_ext. intros x Hx.
+      destruct (f_ty f) as [k|tm] eqn:Et.
+      + eapply forallb_forall in Hd; [|exact Hx]. eapply elem_strip; [exact Hr|]. exact Hd.
+      + destruct (2 <=? r)%nat eqn:E2.
+        * eapply forallb_forall in Hd; [|exact Hx]. eapply elem_strip; [exact Hr|]. exact Hd.
+        * exfalso. splitb. cbn [rep_len] in *. unfold child_ok_container in *. rewrite E2 in *. cbn [andb v_list_truncate repaired] in *.
+          destruct l; [destruct Hx|discriminate].
+    - destruct s; try (destruct (f_ty f); discriminate); try reflexivity.
+      cbn [strip_unknown]. f_equal. eapply elem_strip; eauto.
+    - destruct s; try (destruct (f_ty f); discriminate); try reflexivity.
+      cbn [strip_unknown]. f_equal. apply map_id_ext. intros [a b] Hx. eapply forallb_forall in Hd; [|exact Hx]. cbn [fst snd] in *.
+      apply andb_true_iff in Hd. destruct Hd as [_ Hd]. f_equal. eapply elem_strip; eauto.
+  Qed.
+
+  Lemma range_strip : forall r p ic mid v, deep sch ann R r p ic mid v = true -> strip_unknown v = v.
+  Proof.
+    induction r as [|r IH]; intros p ic mid v; cbn [deep]; [discriminate|].
+    destruct (get_msg sch mid) as [md|] eqn:Hg; [|discriminate]. destruct (nth_error ann mid) as [ma|] eqn:Ha; [|discriminate].
+    destruct v; try discriminate. intros H. apply andb_true_iff in H. destruct H as [Hm Hs]. cbn [p_msg range_preds] in Hm. unfold rg_msg in Hm.
+    apply andb_true_iff in Hm. destruct Hm as [Hu Hm]. destruct unk; [|discriminate]. cbn [strip_unknown]. f_equal.
+    destruct (a_wkt ma).
+    - revert Hs. generalize (a_fields ma) as fas. generalize (m_fields md) as fs. clear Hm. induction slots as [|s ss IHs]; intros [|f fs] [|fa fas]; cbn [slots_deep map]; try discriminate; auto.
+      intros H. apply andb_true_iff in H. destruct H as [H1 H2]. f_equal; [|eapply IHs; eauto].
+      eapply slot_strip; [|exact H1]. intros pp ic' tm x. apply IH.
+    - destruct slots as [|[] [|[] [|]]]; try discriminate. reflexivity.
+    - destruct slots as [|[] [|[] [|]]]; try discriminate. reflexivity.
+    - destruct slots as [|[] [|vb [|]]]; try discriminate. splitb. destruct vb; try discriminate; reflexivity.
+    - destruct slots as [|s [|]]; try discriminate. cbn [v_fieldmask_stored repaired] in Hm.
+      destruct s; cbn [rep_len] in Hm; try discriminate. splitb. cbn [map strip_unknown]. do 2 f_equal. apply map_id_ext. intros x Hx.
+      match goal with Hf : forallb _ l = true |- _ => eapply forallb_forall in Hf; [|exact Hx]; destruct x; try discriminate end. reflexivity.
+  Qed.
 End Sound.
